@@ -1272,6 +1272,48 @@ pub fn c19_embedded(ctx: &mut Ctx, s: &str) {
         }
         if let (Some(q), Some(mq)) = (r0.query(), sp.query) { c19_obj!(ctx, "Query", q, mq, b(s)); }
         if let (Some(fr), Some(mf)) = (r0.fragment(), sp.fragment) { c19_obj!(ctx, "Fragment", fr, mf, b(s)); }
+        // the same components obtained through the all-at-once decomposition (`parts()` of the reference,
+        // of its authority and of the full type) are views of the same text
+        if let Ok(p) = crate::ctx::guard(|| r0.parts()) {
+            ctx.call("embedded.parts");
+            let mut pmissing: Vec<&'static str> = Vec::new();
+            match (p.query, sp.query) { (Some(q), Some(mq)) => { c19_obj!(ctx, "Query", q, mq, b(s)); } (None, None) => {} _ => pmissing.push("Query") }
+            match (p.fragment, sp.fragment) { (Some(fr), Some(mf)) => { c19_obj!(ctx, "Fragment", fr, mf, b(s)); } (None, None) => {} _ => pmissing.push("Fragment") }
+            for (i, sg) in p.path.segments().enumerate().take(8) {
+                if let Some(ms) = msegs.get(i) { c19_obj!(ctx, "Segment", sg, ms, b(s)); }
+            }
+            match (p.authority, sp.authority) {
+                (Some(a), Some(ma)) => {
+                    let ms = model::split_authority(ma);
+                    if let Ok(ap) = crate::ctx::guard(|| a.parts()) {
+                        match (ap.user_info, ms.user_info) { (Some(u), Some(mu)) => { c19_obj!(ctx, "UserInfo", u, mu, b(s)); } (None, None) => {} _ => pmissing.push("UserInfo") }
+                        c19_obj!(ctx, "Host", ap.host, ms.host, b(s));
+                    }
+                }
+                (None, None) => {}
+                _ => pmissing.push("Host"),
+            }
+            for name in pmissing {
+                ctx.fail("C19.bytes", { let mut f = c19_feats(name, "embedded.parts.presence", true); f.push(("via", "parts".into())); f }, format!("{} of {}: parts() and the RFC split disagree on whether the component is there, so its percent-decoded view cannot be obtained (or is obtained for something else)", name, show(b(s))));
+            }
+        }
+        if sp.scheme.is_some() {
+            if let Ok(full) = Ri::new(s) {
+                if let Ok(p) = crate::ctx::guard(|| full.parts()) {
+                    ctx.call("embedded.parts (full type)");
+                    let mut pmissing: Vec<&'static str> = Vec::new();
+                    match (p.query, sp.query) { (Some(q), Some(mq)) => { c19_obj!(ctx, "Query", q, mq, b(s)); } (None, None) => {} _ => pmissing.push("Query") }
+                    match (p.fragment, sp.fragment) { (Some(fr), Some(mf)) => { c19_obj!(ctx, "Fragment", fr, mf, b(s)); } (None, None) => {} _ => pmissing.push("Fragment") }
+                    if let (Some(a), Some(ma)) = (p.authority, sp.authority) {
+                        let ms = model::split_authority(ma);
+                        if let Ok(ap) = crate::ctx::guard(|| a.parts()) { c19_obj!(ctx, "Host", ap.host, ms.host, b(s)); }
+                    }
+                    for name in pmissing {
+                        ctx.fail("C19.bytes", { let mut f = c19_feats(name, "embedded.parts.presence", true); f.push(("via", "parts-full".into())); f }, format!("{} of {}: parts() of the full type and the RFC split disagree on whether the component is there", name, show(b(s))));
+                    }
+                }
+            }
+        }
         // a component the reference has must be obtainable as a view at all
         let mut missing: Vec<&'static str> = Vec::new();
         if let Ok(x) = crate::ctx::guard(|| r0.query().is_some()) { if x != sp.query.is_some() { missing.push("Query"); } }
@@ -1873,6 +1915,38 @@ pub fn c09(ctx: &mut Ctx, path: &str) {
                         ctx.fail("C09.inplace", c09_feats("path_mut().normalize", t, shape), format!("path_mut().normalize() on {} = {} (path segments {}) but the normalized sequence is {}", show(b(&full)), show(&a), segs_show(&asegs), segs_show(&want_seq)));
                     }
                     if a2 != a { ctx.fail("C09.idempotent", c09_feats("path_mut().normalize", t, shape), format!("path_mut().normalize() is not idempotent on {}: {} then {}", show(b(&full)), show(&a), show(&a2))); }
+                    // the handle that normalised stays usable: what it views afterwards is the new path, and a
+                    // second normalize / a push / a pop through the SAME handle leaves what fresh handles leave
+                    {
+                        ctx.call("one handle: normalize then view/normalize/push/pop");
+                        let seg = Segment::new("zz").unwrap();
+                        let one = crate::ctx::guard(|| {
+                            let mut o1 = RiRefBuf::new(own(&full)).unwrap();
+                            let view = { let mut pm = o1.path_mut(); pm.normalize(); let v = pm.as_bytes().to_vec(); pm.normalize(); v };
+                            let mut o2 = RiRefBuf::new(own(&full)).unwrap();
+                            { let mut pm = o2.path_mut(); pm.normalize(); pm.push(seg); }
+                            let mut o3 = RiRefBuf::new(own(&full)).unwrap();
+                            { let mut pm = o3.path_mut(); pm.normalize(); pm.pop(); }
+                            (view, o1.as_bytes().to_vec(), o2.as_bytes().to_vec(), o3.as_bytes().to_vec())
+                        });
+                        let fresh = crate::ctx::guard(|| {
+                            let mut o2 = RiRefBuf::new(own(&full)).unwrap();
+                            o2.path_mut().normalize(); o2.path_mut().push(seg);
+                            let mut o3 = RiRefBuf::new(own(&full)).unwrap();
+                            o3.path_mut().normalize(); o3.path_mut().pop();
+                            (o2.as_bytes().to_vec(), o3.as_bytes().to_vec())
+                        });
+                        match (one, fresh) {
+                            (Err(m), _) => ctx.fail("C09.panic", c09_feats("one-handle", t, shape), format!("normalize followed by another call through the same handle on {} panicked: {}", show(b(&full)), m)),
+                            (_, Err(_)) => {}
+                            (Ok((view, twice, pushed, popped)), Ok((fpushed, fpopped))) => {
+                                if view != a0.path { ctx.fail("C09.handle", c09_feats("one-handle view", t, shape), format!("after normalize() on {} the handle views {} but the buffer's path is {}", show(b(&full)), show(&view), show(a0.path))); }
+                                if twice != a { ctx.fail("C09.handle", c09_feats("one-handle normalize twice", t, shape), format!("normalize() twice through one handle on {} leaves {}, through fresh handles {}", show(b(&full)), show(&twice), show(&a))); }
+                                if pushed != fpushed { ctx.fail("C09.handle", c09_feats("one-handle normalize+push", t, shape), format!("normalize() then push through one handle on {} leaves {}, through fresh handles {}", show(b(&full)), show(&pushed), show(&fpushed))); }
+                                if popped != fpopped { ctx.fail("C09.handle", c09_feats("one-handle normalize+pop", t, shape), format!("normalize() then pop through one handle on {} leaves {}, through fresh handles {}", show(b(&full)), show(&popped), show(&fpopped))); }
+                            }
+                        }
+                    }
                     if b0.scheme.is_some() {
                         if let Ok(mut fb) = RiBuf::new(own(&full)) {
                             if let Ok(fa) = crate::ctx::guard(|| { fb.path_mut().normalize(); fb.as_bytes().to_vec() }) {
